@@ -323,9 +323,18 @@ def compare(C, model):
             return 'subset vector %s, expected %s (conditions %s)' % (list(C.subset_vect), list(model['sv']), model['conds'])
         if list(C.chain_vect) != list(model['ch']):
             return 'chain vector %s, expected maximal runs %s' % (list(C.chain_vect), list(model['ch']))
+        # (the subset and chain vectors are those of the last pick; a query is answered from the metrics as they are NOW -
+        #  a metric may have been replaced since)
+        now = np.ones(K, dtype=bool)
+        for cn in model['conds']:
+            for sym in ('==', '!=', '<=', '>=', '<', '>'):
+                if sym in cn:
+                    nm, lit = cn.split(sym)
+                    now &= CMPS[sym](model['metrics'][nm], float(lit))
+                    break
         got = C.get_matching_cycles(model['conds'])
-        if list(np.asarray(got, dtype=bool)) != list(model['valid']):
-            return 'get_matching_cycles(%s) = %s, expected %s' % (model['conds'], list(got), list(model['valid']))
+        if list(np.asarray(got, dtype=bool)) != list(now):
+            return 'get_matching_cycles(%s) = %s, expected %s' % (model['conds'], list(got), list(now))
     return None
 
 
